@@ -95,6 +95,18 @@ extern "C" void harness() {
 #ifdef VERIF_MODEL
     std::verif_the_file.openable = 1;
 #endif
+#ifndef NO_PRESTEP
+    // one arbitrary mutator before the graph is shared: auxiliary state a class may keep besides the documented representation
+    // (dirty flags, hints, counters) is then in whatever condition a mutation leaves it, not only in its freshly-built condition
+    if (ENTRY != 99) { unsigned pa = nd(n), pb = nd(n); unsigned which = nd(3);
+        if (which == 1) { g.removeEdge(pa, pb); REACH("the graph lost an edge before it was shared"); }
+#if KIND >= 4
+        else if (which == 2) g.addEdge(pa, pb, 1.0);
+#else
+        else if (which == 2) g.addEdge(pa, pb);
+#endif
+    }
+#endif
     const G &cg = g;
     __VERIFIER_freeze(&g);
     // ------------------------------------------------------------------ one const entry point on the shared graph
